@@ -1088,7 +1088,11 @@ class Component(composites.Composite, metaclass=ComponentType):
             Tc = self.temperatureInC
 
         dLL = self.material.linearExpansionFactor(Tc=Tc, T0=T0)
-        if not dLL and abs(Tc - T0) > self._TOLERANCE:
+        if (
+            not dLL
+            and abs(Tc - T0) > self._TOLERANCE
+            and not self.material.linearExpansionPercent(Tc=Tc)
+        ):
             runLog.error(
                 "Linear expansion percent may not be implemented in the {} material class.\n"
                 "This method needs to be implemented on the material to allow thermal expansion."
